@@ -43,7 +43,7 @@ def _gate(fl):
     return problems
 
 
-# ---- C03: addConn = closed test under the mutex (model step addCheck), then c.p (addP), open notification (addOpen),
+# ---- C03: addConn = closed test and c.p = p in one c.mux region (model steps addCheck, addP), open notification (addOpen),
 # fd table (addTable), epoll registration (addReg) — in this order, as separate statements
 def _addconn_order(fl):
     def first(kind, expr, write=None, held=None):
@@ -60,6 +60,13 @@ def _addconn_order(fl):
         return ["addConn: locked closed test / c.p write / onOpen / connsUnix write / addRead not all found (%s, %s, %s, %s, %s)" % (k, p, o, t, r)]
     if not (k < p < o < t < r):
         return ["addConn: order is not closed test(%d) < c.p = p(%d) < onOpen(%d) < connsUnix[fd]=c(%d) < addRead(%d)" % (k, p, o, t, r)]
+    # the closed test and c.p = p are ONE critical section (the model disables flips between addCheck and addP)
+    pw = [f for f in fl if f["kind"] == "access" and f["expr"] == "c.p" and f.get("write") and f["line"] == p]
+    if not pw or "c.mux" not in pw[0]["held"]:
+        return ["addConn: c.p = p at line %d is not inside the c.mux region of the closed test" % p]
+    if [f for f in fl if f["kind"] == "unlock" and f["expr"] == "c.mux" and k < f["line"] < p and "return" not in
+            [g["kind"] for g in fl if f["line"] < g["line"] < p]]:
+        return ["addConn: c.mux is released between the closed test (%d) and c.p = p (%d)" % (k, p)]
     bad = [f["line"] for f in fl if f["kind"] == "access" and f["expr"] == "c.closed" and "c.mux" not in f["held"]]
     if bad:
         return ["addConn: c.closed read without c.mux at line %d" % bad[0]]
